@@ -164,7 +164,12 @@ def run(p, script, seed=0):
                 row = mk(bool(s[1]), bool(s[2]))
                 was_waiting = det.waiting_for_oracle
                 n_before = 0 if det.oracle_data is None else len(det.oracle_data)
-                det.give_oracle_label(pd.DataFrame([row]))
+                lab = pd.DataFrame([row])
+                if rng.random() < 0.4:          # the same columns in another order: still the same labelled sample
+                    cols = list(lab.columns)
+                    rng.shuffle(cols)
+                    lab = lab[cols]
+                det.give_oracle_label(lab)
                 e["m"], e["c"] = (mbit([row["x0"], row["x1"]], clf) if svc else s[1]), s[2]
                 if svc:
                     e["c"] = int(int(clf.predict(pd.DataFrame([{"x0": row["x0"], "x1": row["x1"]}]))[0]) == row["y"])
